@@ -74,12 +74,13 @@ InvPats(z) == { <<"inv">>, <<"inv", "ifbr">>, <<"tpos", "inv">> }
 
 \* nesting split between the page and template bodies: <<page pattern, rungs on the page>> x body
 PageParts(z) == IF Tier = "thorough"
-                THEN { <<pp, m>> : pp \in { <<"ifbr">>, <<"tpos">>, <<"link">>, <<"def", "ifcond">> }, m \in {0, 1, 40, L \div 2, L - 1} }
+                THEN { << <<"ifbr">>, 0 >>, << <<"ifbr">>, 40 >>, << <<"ifbr">>, L - 1 >>, << <<"tpos">>, 1 >>, << <<"tpos">>, (L \div 2) - 1 >>,
+                       << <<"link">>, 40 >>, << <<"link">>, L - 1 >>, << <<"def", "ifcond">>, L \div 2 >> }
                 ELSE { << <<"ifbr">>, 40 >> }
 BodyPats(z) == IF Tier = "thorough"
                THEN { <<"ifbr">>, <<"ifcond">>, <<"tpos">>, <<"link">>, <<"def">>, <<"pname">>, <<"swbr">>, <<"eqbr", "swbr">>, <<"link", "def">>, <<"tnamed", "ifelse">> }
                ELSE { <<"ifbr">>, <<"ifcond">>, <<"tpos">>, <<"link">>, <<"def">>, <<"eqbr", "swbr">> }
-BodyDepths(z) == IF Tier = "thorough" THEN {L \div 2, L - 1, L, L + 1, 170, 2 * L, 5 * L, 10 * L, 20 * L} ELSE {L + 1, 170, 10 * L}
+BodyDepths(z) == IF Tier = "thorough" THEN {L \div 2, L - 1, L, L + 1, 170, 2 * L, 5 * L, 10 * L} ELSE {L + 1, 170, 10 * L}
 ChainPats(z) == IF Tier = "thorough" THEN { <<"ifbr">>, <<"link">>, <<"def">>, <<"tpos", "ifcond">> } ELSE { <<"ifbr">>, <<"link">> }
 
 LadderCases ==
@@ -88,6 +89,7 @@ LadderCases ==
   \cup { <<Seg(p, n)>> : p \in MixedPats(0), n \in MixedDepths(0) }
   \cup { <<Seg(p, 10 * L)>> : p \in MixedDeep(0) }
   \cup { <<Seg(<<"link", "tpos">>, 3), Seg(bp, k)>> : bp \in BodyPats(0), k \in {L - 1, 5 * L} }
+  \cup (IF Tier = "thorough" THEN { <<Seg(<<"ifbr">>, 40), Seg(bp, 20 * L)>> : bp \in BodyPats(0) } ELSE {})
   \cup { <<Seg(p, n)>> : p \in InvPats(0), n \in InvDepths(0) }
   \cup { <<Seg(pm[1], pm[2]), Seg(bp, k)>> : pm \in PageParts(0), bp \in BodyPats(0), k \in BodyDepths(0) }
   \* two bodies deep: page -> D2 -> D3
